@@ -255,7 +255,9 @@ def c09(ctx, rep):
     stream_open_rule(ctx, rep, "C09")
     _juniper_standard_tables(ctx, rep, "C09")
     secret_flow.check_anonymize_value(ctx, rep, "C09")
-    secret_struct.check_table(ctx, rep, "C09", want_catchalls=False)
+    _pfx, _grps, _parts = secret_struct.check_table(ctx, rep, "C09", want_catchalls=False)
+    from . import refpatterns
+    refpatterns.check(ctx, rep, "C09", _pfx, _grps, _parts)
     r, out = secret_rmi.check_rmi(ctx, rep, "C09")
     _enclosing_lists(ctx, rep, "C09")
     for s, wb in out.get("template_sub", []):
@@ -439,10 +441,27 @@ def c10(ctx, rep):
         rep.ob("C10.salt-field", init.name, salt is not None and salt.c == ("param", "salt"), "self.salt = %s" % (show(salt.c) if salt else None), w)
         res = stores.get("reserved_words")
         okr = res is not None and res.c[0] == "comp" and res.c[1] == "set" and res.c[4][0][1] == ("param", "reserved_words") and not res.c[4][0][2]
+        okr = okr and res.c[3] == ("call", ("attr", res.c[4][0][0], "lower"), (), ())  # tokens are compared in lower case (anonymize), so the reserved words must be
         rep.ob("C10.reserved-lowercased", init.name, okr, "self.reserved_words = %s; expected {w.lower() for w in reserved_words} over every reserved word" % (show(res.c) if res else None), w)
         cw = stores.get("conflicting_words")
         okc = cw is not None and M.is_call(cw.c) and cw.c[1] == ("attr", SELF, "_generate_conflicting_reserved_word_list")
         rep.ob("C10.skip-set-built", init.name, okc, "self.conflicting_words = %s" % (show(cw.c) if cw else None), w)
+        if okc and cw.c[2]:
+            # the reserved words are lower-cased, so the words they are compared with (`word in reserved`) must be lower-cased too
+            a1 = strip_mut(cw.c[2][0])
+            low = False
+            for x in subterms(a1):
+                if x[0] == "comp" and len(x[4]) == 1 and _derives_from_all(x[4][0][1], sw):
+                    low = x[3] == ("call", ("attr", x[4][0][0], "lower"), (), ())
+            if not low:
+                f_conf = swa.find_method("_generate_conflicting_reserved_word_list")
+                if f_conf is not None:
+                    for e_, ls_, pth_ in A.paths(f_conf).all_effects():
+                        for x in subterms(e_.a) if isinstance(e_.a, tuple) else ():
+                            if x[0] == "compare" and x[1] == ("in",) and M.is_call(x[2][0]) and x[2][0][1][0] == "attr" and x[2][0][1][2] == "lower":
+                                low = True  # lower-cased at the point of comparison instead
+            rep.ob("C10.conflict-words-lowercased", init.name, low, "the reserved words that must be left alone are found by comparing the lower-cased reserved words with %s; a listed word with capitals would never be found inside them" % show(a1)[:100], w,
+                   key="C10.conflict-words-lowercased|SensitiveWordAnonymizer.__init__")
     rep.ob("C10.memo-not-class-level", swa.name, "sens_word_replacements" not in swa.assigns, "the pseudonym memo is not a class attribute", loc, key="C10.memo-per-instance|SensitiveWordAnonymizer")
     for f in p.all_functions():
         if f is init:
@@ -512,7 +531,10 @@ def c10(ctx, rep):
             mp = ("param", f_l.mparams[1])
             want = ("call", ("attr", SELF, f_g.name), (("call", ("attr", mp, "group"), (("const", 0),), ()),), ())
             want0 = ("call", ("attr", SELF, f_g.name), (("call", ("attr", mp, "group"), (), ()),), ())
-            rep.ob("C10.pseudonym-of-matched-text", f_l.name, path.returned() in (want, want0), "callback returns %s; expected the pseudonym of match.group(0)" % show(path.returned()), W(f_l), key="C10.pseudonym-of-matched-text|_lookup_anon_word")
+            # group(1) is the whole match as well: the pattern is one outer group (C10.pattern-construction, checked above)
+            want1 = ("call", ("attr", SELF, f_g.name), (("call", ("attr", mp, "group"), (("const", 1),), ()),), ())
+            wants = ("call", ("attr", SELF, f_g.name), (("sub", mp, ("const", 0)),), ())
+            rep.ob("C10.pseudonym-of-matched-text", f_l.name, path.returned() in (want, want0, want1, wants), "callback returns %s; expected the pseudonym of match.group(0)" % show(path.returned()), W(f_l), key="C10.pseudonym-of-matched-text|_lookup_anon_word")
         wp = ("param", f_g.mparams[1])
         try:
             n = folder.module_const(mod, "_ANON_SENSITIVE_WORD_LEN")
